@@ -117,17 +117,6 @@ def _enclosing_tests(rw):
   return ' '.join(out)
 
 
-def _is_missing_cmp(e, names=None):
-  """`MISSING_VALUE == x` / `x == MISSING_VALUE` (x optionally restricted)."""
-  if not (isinstance(e, ast.Compare) and len(e.ops) == 1 and isinstance(e.ops[0], ast.Eq)):
-    return False
-  l, r = A.unparse(e.left), A.unparse(e.comparators[0])
-  for a, b in ((l, r), (r, l)):
-    if a.endswith('MISSING_VALUE') and (names is None or b in names):
-      return True
-  return False
-
-
 def _primitive_guards(idx, word):
   """Is the List write primitive guarded from the inside?
 
@@ -157,52 +146,13 @@ def _primitive_guards(idx, word):
         and n.ast.comparators[0].value is None and (word in t or '_value_spec' in t):
       lab = 'false' if isinstance(n.ast.ops[0], ast.IsNot) else 'true'
       blocked_edges |= {(n.id, m.id, l) for m, l in n.succ if l == lab}
-    if word == 'min_size' and _is_missing_cmp(n.ast, ('value', 'new_value')):
+    if word == 'min_size' and c08.is_missing_cmp(n.ast, ('value', 'new_value')):
       blocked_edges |= {(n.id, m.id, l) for m, l in n.succ if l == 'false'}
   targets = raw(('list.insert', 'list.append')) if word == 'max_size' else raw(('list.__setitem__',))
   if not targets:
     return False
   seen, _ = g.reach(g.entry, blocked_nodes=guards, blocked_edges=blocked_edges, follow_exc=False)
   return not any(t.id in seen for t in targets)
-
-
-def _sweeps_only_placeholders(idx, f):
-  """Every raw list.__delitem__ of f deletes an index taken from a collection
-  that only ever receives indices whose item compared equal to the MISSING
-  marker (loop + guarded append, or a filtering comprehension)."""
-  g = C.cfg_of(f.node)
-  dels = [c for c in A.calls_in(f.node) if c08._raw_of_call(idx, f, c) == 'list.__delitem__']
-  if not dels:
-    return False
-  for c in dels:
-    ia = c.args[-1]
-    if not isinstance(ia, ast.Name):
-      return False
-    loops = [n for n in ast.walk(f.node) if isinstance(n, ast.For) and any(x is c for x in ast.walk(n))
-             and ia.id in A.assigned_names(n.target)]
-    if not loops:
-      return False
-    it = loops[-1].iter
-    while isinstance(it, ast.Call) and (A.call_name(it) or '') in ('reversed', 'sorted', 'list', 'tuple') and it.args:
-      it = it.args[0]
-    if not isinstance(it, ast.Name):
-      return False
-    coll = it.id
-    for _, v in D.defs_of(f.node, coll):
-      if isinstance(v, ast.List) and not v.elts:
-        continue
-      if isinstance(v, ast.ListComp) and any(_is_missing_cmp(i) for gen in v.generators for i in gen.ifs):
-        continue
-      return False
-    # appends happen only under a MISSING comparison
-    tests = [n for n in g.nodes if n.kind == 'test' and _is_missing_cmp(n.ast)]
-    blocked = {(n.id, m.id, l) for n in tests for m, l in n.succ if l == 'true'}
-    seen, _ = g.reach(g.entry, blocked_edges=blocked, follow_exc=False)
-    for n in g.nodes:
-      if n.ast is not None and n.id in seen and any(
-          (A.call_name(x) or '') in (coll + '.append', coll + '.extend', coll + '.insert') for x in n.calls()):
-        return False
-  return True
 
 
 def _bound_analysis(idx, word):
@@ -229,7 +179,7 @@ def _bound_analysis(idx, word):
   prim = idx.lookup_method(S.LIST, S.PRIMITIVE)
   onchange = idx.lookup_method(S.LIST, '_on_change')
   sweep_ok = (word == 'min_size' and prim_guarded and onchange is not None
-              and _sweeps_only_placeholders(idx, onchange))
+              and c08.sweeps_only_placeholders(idx, onchange))
 
   def sinks(func, node):
     out = []
@@ -304,7 +254,7 @@ def rule_b(ctx):
                ' guard: every caller is checked instead', prim.loc)
   oc = idx.lookup_method(S.LIST, '_on_change')
   if oc is not None and _primitive_guards(idx, 'min_size'):
-    ok = _sweeps_only_placeholders(idx, oc)
+    ok = c08.sweeps_only_placeholders(idx, oc)
     ctx.ob('C03.b', f'{oc.fq}#sweep', ok,
            'the sweep deletes only indices whose item compared equal to the MISSING marker '
            '(the removal was bounded when the marker was stored)', oc.loc,
